@@ -88,8 +88,14 @@ static int dss_msg(int k) { k %= 5; return k == 4 ? 5 : k; }
 
 enum { NTS = 0, DSS = 1 };
 static const char *SCHEME[2] = {"nts", "dss"};
-enum { FM_NONE = 0, FM_LIB = 1, FM_SCRIPT = 2 };
-static const char *FMODE[3] = {"none", "lib", "script"};
+// fault modes of the designated faulty parties:
+//   lib     the library's simulate_faulty_behaviour switch with the library's own coins
+//   script  the same switch, top-level coins of DSS::Sign scripted (drop-out point chosen by the harness)
+//   share   honest code on a corrupted key share (x_i resp. z_i off by one after key generation): the only
+//           deviation that reliably reaches the checks of the second half of Sign (the switch's nested
+//           coins end a faulty run early with probability > 0.999, see notes)
+enum { FM_NONE = 0, FM_LIB = 1, FM_SCRIPT = 2, FM_SHARE = 3 };
+static const char *FMODE[4] = {"none", "lib", "script", "share"};
 
 struct Scenario {
 	int scheme = NTS; size_t n = 3, t = 1; std::vector<size_t> faulty; int fmode = FM_NONE;
@@ -250,7 +256,8 @@ static void run_scenario(Run &R) {
 				std::unique_ptr<GennaroJareckiKrawczykRabinNTS> nts; std::unique_ptr<CanettiGennaroJareckiKrawczykRabinDSS> dss;
 				if (sc.scheme == NTS) nts.reset(new GennaroJareckiKrawczykRabinNTS(n, t, i, G.p, G.q, G.g, G.h, FS, GS, true, false));
 				else dss.reset(new CanettiGennaroJareckiKrawczykRabinDSS(n, t, i, G.p, G.q, G.g, G.h, FS, GS, true, false));
-				bool fl = R.isfaulty[i];
+				bool corrupt_share = R.isfaulty[i] && sc.fmode == FM_SHARE;
+				bool fl = R.isfaulty[i] && sc.fmode != FM_SHARE;
 				mpz_t a, s; mpz_init(a); mpz_init(s);
 				struct Clr { mpz_ptr a, s; ~Clr() { mpz_clear(a); mpz_clear(s); } } clr{a, s};
 				for (size_t ph = 0; ph < R.phases.size(); ph++) {
@@ -267,6 +274,10 @@ static void run_scenario(Run &R) {
 					case PH_GEN:
 						o.called = true;
 						o.ret = nts ? nts->Generate(&aiou, &rbc, err, fl && R.kf) : dss->Generate(&aiou, &rbc, err, fl && R.kf);
+						if (corrupt_share) {
+							if (nts) { mpz_add_ui(nts->z_i, nts->z_i, 1L); mpz_mod(nts->z_i, nts->z_i, G.q); }
+							else { mpz_add_ui(dss->x_i, dss->x_i, 1L); mpz_mod(dss->x_i, dss->x_i, G.q); }
+						}
 						state();
 						break;
 					case PH_REFRESH:
@@ -527,7 +538,7 @@ int main(int argc, char **argv) {
 		s.scheme = std::string(sch) == "dss" ? DSS : NTS; s.n = n; s.t = t;
 		if (got == 4) { std::stringstream ss(fl); std::string tok; while (std::getline(ss, tok, ',')) if (!tok.empty()) s.faulty.push_back((size_t)atol(tok.c_str())); }
 		std::string fm = ctx.option("fmode", s.faulty.empty() ? "none" : "lib");
-		s.fmode = fm == "script" ? FM_SCRIPT : (fm == "lib" ? FM_LIB : FM_NONE);
+		s.fmode = fm == "script" ? FM_SCRIPT : (fm == "lib" ? FM_LIB : (fm == "share" ? FM_SHARE : FM_NONE));
 		s.keygen_faulty = (int)ctx.option_l("keygen_faulty", -1);
 		std::string cut = ctx.option("cut"); if (!cut.empty()) s.cut = cut == "none" ? -1 : atoi(cut.c_str());
 		s.preempt = atof(ctx.option("preempt", "0").c_str()); s.bigmsg = !ctx.option("bigmsg").empty();
@@ -544,6 +555,19 @@ int main(int argc, char **argv) {
 		long kk = k++;
 		if (!case_begin(kk, J().kv("kind", "vp").kv("scheme", SCHEME[scheme]).kv("g", gi).str())) continue;
 		do_vp_case(kk, scheme, gi);
+	}
+	// corrupted-share scenarios (appended last so that the numbers of all earlier cases are unchanged)
+	{
+		bool q = ctx.quick(); Rng sr(ctx.seed, 0xC16, 4);
+		for (int scheme = 0; scheme < 2; scheme++) for (size_t n = 4; n <= (q ? 5u : 7u); n++) for (size_t t = 1; 3 * t < n; t++) {
+			std::vector<std::vector<size_t>> sets; for (size_t fsz = 1; fsz <= t; fsz++) subsets(n, fsz, sets);
+			size_t take = q ? (n == 4 ? (scheme == DSS ? 4 : 2) : 2) : std::min<size_t>(sets.size(), n <= 5 ? sets.size() : 4);
+			for (size_t i = 0; i < take && i < sets.size(); i++) std::swap(sets[i], sets[i + sr.below(sets.size() - i)]);
+			for (size_t si = 0; si < take && si < sets.size(); si++) {
+				Scenario s; s.scheme = scheme; s.n = n; s.t = t; s.faulty = sets[si]; s.fmode = FM_SHARE; s.keygen_faulty = 0;
+				long kk = k++; if (!case_begin(kk, s.desc())) continue; do_run_case(kk, s);
+			}
+		}
 	}
 	finish();
 	return 0;
